@@ -39,6 +39,9 @@ const ED25519_SPKI_OID: &[u8] = &[0x2b, 0x65, 0x70];
 /// 1.2.840.10045.2.1 ecPublicKey (Elliptic Curve public key cryptography)
 const ECC_SPKI_OID: &[u8] = &[0x2a, 0x86, 0x48, 0xce, 0x3d, 0x02, 0x01];
 
+/// 1.2.840.10045.3.1.7 prime256v1 (NIST P-256 named curve)
+const PRIME256V1_OID: &[u8] = &[0x2a, 0x86, 0x48, 0xce, 0x3d, 0x03, 0x01, 0x07];
+
 /// The length of an ed25519 private key in bytes
 const ED25519_PRIVATE_KEY_LENGTH: usize = 32;
 
@@ -768,8 +771,12 @@ impl PublicKey {
                     if typ == KeyType::Ecdsa {
                         let _alg_oid =
                             derp::expect_tag_and_get_value(input, Tag::Oid)?;
+                    } else if typ == KeyType::Ed25519 && input.at_end() {
+                        // RFC 8410: the parameters of an Ed25519
+                        // AlgorithmIdentifier are absent
                     } else {
-                        // for RSA / ed25519 this is null, so don't both parsing it
+                        // for RSA this is null (also tolerated for ed25519
+                        // keys exported by earlier versions)
                         derp::read_null(input)?;
                     }
                     Ok(typ)
@@ -1153,7 +1160,14 @@ fn write_spki(
             der.sequence(|der| match key_type.as_oid().ok() {
                 Some(tag) => {
                     der.element(Tag::Oid, tag)?;
-                    der.null()
+                    match key_type {
+                        // RFC 8410: no parameters
+                        KeyType::Ed25519 => Ok(()),
+                        // RFC 5480: the named curve
+                        KeyType::Ecdsa => der.element(Tag::Oid, PRIME256V1_OID),
+                        // RFC 8017: NULL
+                        _ => der.null(),
+                    }
                 }
                 None => Err(derp::Error::WrongValue),
             })?;
